@@ -1143,3 +1143,45 @@ Proof.
     assert (0 < inject_Z Cl) by (change 0 with (inject_Z 0); rewrite <- Zlt_Qlt; lia).
     split; field; lra.
 Qed.
+
+(* ---------------------------------------------------------------------- *)
+(* placed tiled segmentation, end to end through get_volume                *)
+(* ---------------------------------------------------------------------- *)
+Theorem placed_get_volume :
+  forall src_org usr_org npos rp cp o_given src_rc src_cc u_rc u_cc m_given
+         src_spr src_spc u_spr u_spc srcR srcC MR MC src_th src_tw th tw o,
+  placed_origin src_org usr_org npos rp cp o_given src_rc src_cc u_rc u_cc m_given
+                src_spr src_spc u_spr u_spc srcR srcC MR MC src_th src_tw th tw = Ok o ->
+  forall rowcos colcos spr spc sbs M ss se rs re cs ce ai sh A' arr,
+  get_volume_tiled (tiled_geometry o rowcos colcos spr spc sbs) MR MC M ss se rs re cs ce ai = Ok (sh, A', arr) ->
+  exists r0 r1 c0 c1,
+    std_rc rs re cs ce MR MC ai true = Ok (r0, r1, c0, c1) /\
+    (0 <= r0 < r1)%Z /\ (0 <= c0 < c1)%Z /\ sh = (1, r1 - r0, c1 - c0)%Z /\
+    arr = [map (cut c0 (c1 - c0)) (cut r0 (r1 - r0) M)] /\
+    forall d0 s0 (i j : Z),
+      physZ A' 0 i j =v= physZ (vol_aff usr_org d0 colcos rowcos s0 spr spc) 0 (r0 + i) (c0 + j).
+Proof.
+  intros until o. intros HP rowcos colcos spr spc sbs M ss se rs re cs ce ai sh A' arr HV.
+  apply get_volume_tiled_inv in HV as (r0 & r1 & c0 & c1 & s & e & Erc & _ & Hr & Hc & _ & _ & Esh & _ & Earr & Hvox).
+  exists r0, r1, c0, c1. repeat split; try assumption; try lia.
+  all: eapply veq_trans; [apply Hvox|]; eapply placed_voxel_fixed; exact HP.
+Qed.
+
+(* every non-empty tile of the mask has a frame (and, when nothing is omitted, every tile) *)
+Theorem tile_frames_complete : forall org rowcos colcos spr spc MR MC th tw M omit r0 c0,
+  In r0 (tile_starts MR th) -> In c0 (tile_starts MC tw) ->
+  (omit = false \/ tile_nonempty M th tw (r0, c0) = true) ->
+  In ((r0 + 1)%Z, (c0 + 1)%Z, tile_pos org rowcos colcos spr spc r0 c0)
+     (tile_frames org rowcos colcos spr spc MR MC th tw M omit).
+Proof.
+  intros org rowcos colcos spr spc MR MC th tw M omit r0 c0 Hr Hc Hne. unfold tile_frames.
+  set (all := flat_map (fun r => map (fun c => (r, c)) (tile_starts MC tw)) (tile_starts MR th)).
+  assert (Hall : In (r0, c0) all).
+  { subst all. apply in_flat_map. exists r0. split; [exact Hr|]. apply in_map. exact Hc. }
+  apply (in_map (fun rc0 : Z * Z => ((fst rc0 + 1)%Z, (snd rc0 + 1)%Z,
+                                    tile_pos org rowcos colcos spr spc (fst rc0) (snd rc0))) _ (r0, c0)).
+  destruct omit; [|exact Hall].
+  destruct Hne as [Hf | Hne]; [discriminate|].
+  destruct (filter (tile_nonempty M th tw) all) as [|a l] eqn:E; [exact Hall|].
+  rewrite <- E. apply filter_In. split; [exact Hall|exact Hne].
+Qed.
